@@ -167,7 +167,12 @@ type buildInfo struct {
 	Degraded    []string       `json:"degraded_files"`
 	BuildS      float64        `json:"build_s"`
 	Harnesses   []string       `json:"harnesses"`
+	DiskSeam    bool           `json:"disk_seam"`
 }
+
+// dropDiskSeam is set when a build with the instrumented dependency failed:
+// the retry goes without it (no simulated disk, everything else unchanged).
+var dropDiskSeam bool
 
 func cacheDir(fp string) string { return filepath.Join(verifDir, ".cache", fp) }
 
@@ -222,11 +227,13 @@ func ensureBuilt(names []string, race bool) (string, *buildInfo) {
 			src := filepath.Join(verifDir, "vsim", "harness", "apps", n, "zz_vsim_test.go")
 			if _, err := os.Stat(src); err == nil {
 				overlay[filepath.Join(repoDir, d, "zz_vsim_test.go")] = src
+				// package variables back to their initial values at the start of a run
+				rf := filepath.Join(scratch, "reset", n, "zz_vsim_reset_test.go")
+				if _, err := instr.ResetFile(filepath.Join(repoDir, d), rf); err != nil {
+					die(2, "reset file for %s: %v", d, err)
+				}
+				overlay[filepath.Join(repoDir, d, "zz_vsim_reset_test.go")] = rf
 			}
-		}
-		ov := filepath.Join(scratch, "overlay.json")
-		if err := instr.WriteOverlay(ov, overlay); err != nil {
-			die(2, "overlay: %v", err)
 		}
 		// scratch go.mod / go.sum
 		mod, err := os.ReadFile(filepath.Join(repoDir, "go.mod"))
@@ -238,6 +245,29 @@ func ensureBuilt(names []string, race bool) (string, *buildInfo) {
 		sum, _ := os.ReadFile(filepath.Join(repoDir, "go.sum"))
 		sum2, _ := os.ReadFile(filepath.Join(verifDir, "vsim", "go.sum"))
 		os.WriteFile(filepath.Join(scratch, "go.sum"), append(append(sum, '\n'), sum2...), 0o644)
+		// the disk seam: the daily-file packages of the go-tools dependency, as the
+		// module under test resolves it, instrumented into the same overlay
+		info.DiskSeam = false
+		if attempt == 0 || !dropDiskSeam {
+			lc := exec.Command(goBin, "list", "-modfile="+filepath.Join(scratch, "go.mod"), "-m", "-f", "{{.Dir}}", "github.com/goblimey/go-tools")
+			lc.Dir = repoDir
+			lc.Env = goEnv()
+			if b, err := lc.Output(); err == nil && strings.TrimSpace(string(b)) != "" {
+				cp, ok, err := instr.DiskSeam(strings.TrimSpace(string(b)), filepath.Join(repoDir, "go.mod"), scratch)
+				if err != nil {
+					die(2, "disk seam: %v", err)
+				}
+				if ok {
+					mod = append(mod, []byte(fmt.Sprintf("replace github.com/goblimey/go-tools => %s\n", cp))...)
+					os.WriteFile(filepath.Join(scratch, "go.mod"), mod, 0o644)
+					info.DiskSeam = true
+				}
+			}
+		}
+		ov := filepath.Join(scratch, "overlay.json")
+		if err := instr.WriteOverlay(ov, overlay); err != nil {
+			die(2, "overlay: %v", err)
+		}
 
 		var wg sync.WaitGroup
 		errs := make([]string, len(need))
@@ -306,6 +336,10 @@ func ensureBuilt(names []string, race bool) (string, *buildInfo) {
 					}
 				}
 			}
+		}
+		if !dropped && info.DiskSeam && !dropDiskSeam && (strings.Contains(failed, "/dep/") || strings.Contains(failed, "/depout/") || strings.Contains(failed, "go-tools")) {
+			dropDiskSeam, dropped = true, true
+			info.Degraded = append(info.Degraded, "go-tools disk seam")
 		}
 		if !dropped || attempt >= 3 {
 			fmt.Fprintln(os.Stderr, failed)
